@@ -113,6 +113,38 @@ def check_thread_run(P, ctx):
     ctx.floor(rule, 5)
 
 
+def check_attach(P, ctx):
+    """the collector and the exception record a thread creates for itself replace whatever its thread-local table held under the
+    reserved key (a Thread copied from a running one starts with the parent's entries): the constructor stores itself there on every
+    path, or the new thread keeps allocating into — and collecting with — another thread's collector"""
+    rule = 'C13.own-singletons'
+    for T in ('GC', 'Exception'):
+        fn = P.fn(P.slot(T, 'New', 'construct_with'))
+        g = P.cfg(fn)
+        ctx.fn(fn)
+        N = util.Norm(P, fn, expand_locals=True, keep={'current', 'set'})
+        sets = []
+        for (n, c) in g.nodes_calling('set'):
+            a = [N.canon(x) for x in c[2]]
+            if len(a) == 3 and a[0][0] == 'call' and ir.callee_name(a[0]) == 'current' and a[0][2][0] == ('global', 'Thread') and a[2] == ('param', 0):
+                sets.append(n)
+        ok = bool(sets) and g.must_pass(g.exit, [n['id'] for n in sets])
+        ctx.check(ok, rule, '%s_New:attaches' % T, site(fn), 'the constructor stores the new %s in the calling thread\'s table on every path (replacing an inherited entry)' % (
+            'collector' if T == 'GC' else 'exception record'))
+    # the OS mutex exists from construction on: created by the constructor on every path and by nobody else (a lazily created mutex is
+    # re-initialised under a thread that already holds it)
+    rule = 'C13.primitives'
+    fn = P.fn(P.slot('Mutex', 'New', 'construct_with'))
+    g = P.cfg(fn)
+    ctx.fn(fn)
+    inits = [n for (n, c) in g.nodes_calling('pthread_mutex_init')]
+    ok = len(inits) == 1 and g.must_pass(g.exit, [inits[0]['id']])
+    others = [f['name'] for f in P.all_functions() if f['unit'].startswith('src/') and f is not fn and f.get('body') is not None and
+              any(ir.callee_name(c) == 'pthread_mutex_init' for c, _ in ir.all_calls(f['body']))]
+    ctx.check(ok and not others, rule, 'Mutex_New:initialises', site(fn), 'the constructor initialises the OS mutex on every path, and no other function does',
+              ['also initialised in: %s' % ', '.join(others)] if others else None)
+
+
 def check_call_join(P, ctx):
     rule = 'C13.primitives'
     fn = P.fn(P.slot('Thread', 'Call', 'call_with'))
@@ -192,7 +224,7 @@ def check_call_join(P, ctx):
     ctx.check(ok, rule, 'Mutex_trylock:result', site(fn), 'trylock reports failure when pthread_mutex_trylock returned EBUSY and success when it returned 0 (evaluated)', detail)
     ok = P.slot('Mutex', 'Start', 'start') == P.slot('Mutex', 'Lock', 'lock') and P.slot('Mutex', 'Start', 'stop') == P.slot('Mutex', 'Lock', 'unlock')
     ctx.check(ok, rule, 'Mutex:with', 'src/Thread.c', 'a with block on a Mutex locks on entry and unlocks on exit (the Start slots are the lock/unlock functions)')
-    ctx.floor(rule, 7)
+    ctx.floor(rule, 8)
 
 
 def check_with_locks(P, ctx):
@@ -238,6 +270,7 @@ def run(ctx, load):
     check_shared_state(P, ctx)
     check_thread_run(P, ctx)
     check_call_join(P, ctx)
+    check_attach(P, ctx)
     check_with_locks(P, ctx)
 
 
